@@ -161,26 +161,91 @@ theorem leaf_mem_members (t : Tree) : ∀ (top : Bool) (path : List String) (inh
       simp [members, this]
     · simp [members, ihr top path inh d l hl]
 
-/-- L2: on the leaves, the generator's shadow flags agree with Go's selector rule, provided no
-    skipped field hides anything (region `F_topSkipShadows` otherwise) -/
-theorem shadow_agrees (t : Tree) (h : topSkipShadows t = false) :
+theorem top_leaf_depth (t : Tree) : ∀ (top : Bool) (path : List String) (inh : Bool) (d : Nat),
+    ∀ l ∈ leaves top path inh d t, l.top = true → (top = true ∧ l.depth = d) := by
+  induction t with
+  | nil => intro _ _ _ _ l hl; simp [leaves] at hl
+  | field f rest ih =>
+    intro top path inh d l hl ht
+    simp only [leaves, List.mem_cons] at hl
+    rcases hl with hl | hl
+    · subst hl; simp at ht; simp [ht]
+    · exact ih top path inh d l hl ht
+  | embed n ty p nm body rest ihb ihr =>
+    intro top path inh d l hl ht
+    simp only [leaves, List.mem_append] at hl
+    rcases hl with hl | hl
+    · have := ihb false _ _ _ l hl ht; simp at this
+    · exact ihr top path inh d l hl ht
+
+/-- the left-out top-level leaves are exactly `hiddenTop` -/
+theorem hiddenTop_leaves (n : String) (t : Tree) : ∀ (path : List String) (inh : Bool) (d : Nat),
+    (leaves true path inh d t).any (fun l => l.top && l.info.skip && decide (l.info.name = n)) =
+      (hiddenTop t).contains n := by
+  induction t with
+  | nil => intros; simp [leaves, hiddenTop]
+  | field f rest ih =>
+    intro path inh d
+    simp only [leaves, hiddenTop, List.any_cons, ih path inh d]
+    by_cases hs : f.skip <;> by_cases hn : f.name = n
+    · simp [hs, hn]
+    · have hn' : ¬ (n = f.name) := fun e => hn e.symm
+      simp [hs, hn, hn']
+    · simp [hs, hn]
+    · simp [hs, hn]
+  | embed nm ty p mk body rest ihb ihr =>
+    intro path inh d
+    simp only [leaves, hiddenTop, List.any_append, ihr path inh d, ↓reduceIte]
+    have : (leaves false (path ++ [nm]) mk (d + 1) body).any
+        (fun l => l.top && l.info.skip && decide (l.info.name = n)) = false := by
+      rw [List.any_eq_false]
+      intro l hl hc
+      simp only [Bool.and_eq_true] at hc
+      have := top_leaf_depth body false _ _ _ l hl hc.1.1
+      simp at this
+    rw [this, Bool.false_or]
+
+/-- L2: on the leaves, the generator's shadow flags agree with Go's selector rule, provided no left-out
+    field of an EMBEDDED struct hides anything (region `F_nestedSkipShadows` otherwise) -/
+theorem shadow_agrees (t : Tree) (h : nestedSkipShadows t = false) :
     ∀ l ∈ leavesTop t,
-      shadowOf (walkTop noShadow t) l.depth l.info.name = goShadowed t l.depth l.info.name := by
+      genShadow t l.depth l.info.name = goShadowed t l.depth l.info.name := by
   intro l hl
-  unfold goShadowed
+  unfold goShadowed genShadow
   have hm := members_any (fun n d => decide (n = l.info.name ∧ d < l.depth)) t true [] false 0
   rw [hm]
-  have hz : (leaves true [] false 0 t).any
-      (fun s => s.info.skip && decide (s.info.name = l.info.name ∧ s.depth < l.depth)) = false := by
-    rw [List.any_eq_false]
-    intro s hs hc
-    simp only [Bool.and_eq_true, decide_eq_true_eq] at hc
-    unfold topSkipShadows at h
-    rw [List.any_eq_false] at h
-    apply h s hs
-    simp only [Bool.and_eq_true, hc.1, true_and, List.any_eq_true, decide_eq_true_eq]
-    exact ⟨(l.info.name, l.depth), leaf_mem_members t true [] false 0 l hl, hc.2.1.symm, hc.2.2⟩
-  rw [hz, Bool.or_false]
+  have hsplit : (leaves true [] false 0 t).any
+      (fun s => s.info.skip && decide (s.info.name = l.info.name ∧ s.depth < l.depth)) =
+      (decide (0 < l.depth) && (hiddenTop t).contains l.info.name) := by
+    rw [← hiddenTop_leaves l.info.name t [] false 0]
+    cases hd : decide (0 < l.depth)
+    · -- l is at depth 0: nothing is shallower
+      simp only [Bool.false_and]
+      rw [List.any_eq_false]
+      intro s _ hc
+      simp only [Bool.and_eq_true, decide_eq_true_eq] at hc
+      simp only [decide_eq_false_iff_not] at hd
+      omega
+    · simp only [Bool.true_and]
+      simp only [decide_eq_true_eq] at hd
+      apply Bool.eq_iff_iff.mpr
+      simp only [List.any_eq_true, Bool.and_eq_true, decide_eq_true_eq]
+      constructor
+      · rintro ⟨s, hs, hsk, hn, hdep⟩
+        refine ⟨s, hs, ⟨?_, hsk⟩, hn⟩
+        -- s is left out and hides l: it must be a top-level leaf, else the region predicate fires
+        cases hst : s.top
+        · exfalso
+          unfold nestedSkipShadows at h
+          rw [List.any_eq_false] at h
+          apply h s hs
+          simp only [hst, Bool.not_false, hsk, Bool.and_self, Bool.true_and, List.any_eq_true, decide_eq_true_eq]
+          exact ⟨(l.info.name, l.depth), leaf_mem_members t true [] false 0 l hl, hn.symm, hdep⟩
+        · rfl
+      · rintro ⟨s, hs, ⟨hst, hsk⟩, hn⟩
+        have := (top_leaf_depth t true [] false 0 s hs hst).2
+        exact ⟨s, hs, hsk, hn, by omega⟩
+  rw [hsplit]
   rfl
 
 /-! ### general list facts -/
